@@ -334,6 +334,25 @@ def install(eng):
             return SNum(cur().fresh_int('hash_tuple'))
         return hash0(e, x)
 
+    def tuple_comp(e, it, node, env, mod, clsctx):
+        """(f(a) for a in <abstract tuple>) with f the identity on nodes"""
+        import ast
+        from pyvc.interp import Env
+        g = node.generators[0]
+        if len(node.generators) != 1 or g.ifs or not isinstance(
+                node, (ast.GeneratorExp, ast.ListComp)):
+            return NotImplemented
+        x = generic_node(e, 'elem')
+        cenv = Env(env, env.func if env is not None else None)
+        e.assign(g.target, x, cenv, mod, clsctx)
+        if e.eval(node.elt, cenv, mod, clsctx) is not x:
+            raise Unsupported('comprehension over an abstract list with an '
+                              'element expression that is not the identity '
+                              'on nodes')
+        return AbsMapped(it)
+
+    eng.comp_handlers[AbsTuple] = tuple_comp
+
     eng.native_handlers[_hkey(map)] = b_map
     eng.native_handlers[_hkey(tuple)] = b_tuple
     eng.native_handlers[_hkey(hash)] = b_hash
